@@ -181,6 +181,25 @@ Proof.
   - apply length_bound_lit.
 Qed.
 
+(* the name, expanded, lists the frames: uncompressed rendering of the frames
+   the symboliser reports for the (at most 16) pcs *)
+Lemma crash_prefix_ok : prefix_ok c_crash_prefix = true.
+Proof. vm_compute. reflexivity. Qed.
+
+Lemma name_lists_frames symb child crash name :
+  (forall p, Forall (fun f => fn_roundtrips (fr_func f) = true) (symb p)) ->
+  counter_name symb child crash = Ok name ->
+  name = lit_no_running \/
+  exists pcs, pcs <> [] /\ (length pcs <= 16)%nat /\
+    name = encode_frames c_crash_prefix (symb pcs) /\
+    (is_truncated c_crash_prefix (symb pcs) = false ->
+     decode_stack name = render_plain c_crash_prefix (symb pcs)).
+Proof.
+  intros Hs H. destruct (shape _ _ _ _ H) as [->|[pcs [H1 [H2 ->]]]]; [left; reflexivity|].
+  right. exists pcs. repeat split; try assumption.
+  intro Ht. apply decode_encode; [exact crash_prefix_ok|apply Hs|exact Ht].
+Qed.
+
 Lemma relocate_lt child s pc b : relocate child s pc b < two64.
 Proof. unfold relocate. destruct b; apply N.mod_lt; discriminate. Qed.
 
